@@ -84,6 +84,12 @@ func (r *Run) absorb(vl *VList) {
 
 // InitStore creates the store according to the configured layout.
 func (r *Run) InitStore() {
+	if r.Sc.Config.Layout == "fresh" {
+		// a project that has no store yet: the first commands (init among
+		// them) arrive together
+		r.M.NoStore = true
+		return
+	}
 	p := r.W.RunOne(ProcSpec{Argv: []string{"init"}, Cwd: r.W.Proj, Label: "init"})
 	if p.ExitCode != 0 {
 		harnessf("ergo init failed: %s", p.Stderr)
